@@ -32,6 +32,13 @@ pub struct Case {
     pub shuffle: bool,
     /// 0 none, 1 threshold -> 0, 2 threshold -> 1e9 (only where the assertion is state independent)
     pub change: u8,
+    /// parameter choices of the rules under test (menus per scenario kind)
+    pub params: [u8; 6],
+    /// 0 none; otherwise the first rule is REPLACED by a different one at the reload and a probe burst judges it:
+    /// flow 1 -> Reject(k), 2 -> Throttling(1/s, no queue), 3 -> WarmUp(30); hotspot 1 -> QPS Reject(k), 2 -> Concurrency(k),
+    /// 3 -> override 0 for value "p"; breaker 1 -> ErrorCount(k)
+    pub probe: u8,
+    pub probe_k: u8,
 }
 
 pub fn decode(u: &mut Bytes) -> Case {
@@ -58,53 +65,136 @@ pub fn decode(u: &mut Bytes) -> Case {
         others: u.choice(4) as u8,
         shuffle: u.bool(),
         change: [0u8, 0, 0, 1, 2][u.choice(5)],
+        // later additions come from the tail (committed replays keep their meaning; all-zero = the original fixed rules)
+        params: [u.tail_u8(), u.tail_u8(), u.tail_u8(), u.tail_u8(), u.tail_u8(), u.tail_u8()],
+        probe: [0u8, 0, 1, 2, 3][u.tail_choice(5)],
+        probe_k: 1 + u.tail_choice(3) as u8,
     }
+}
+
+fn pm<T: Copy>(case: &Case, i: usize, menu: &[T]) -> T {
+    menu[(case.params[i] as usize * menu.len()) >> 8]
 }
 
 const VALUES: [&str; 2] = ["p", "q"];
 
+/// what the reload does to the first rule of the resource under test
+#[derive(Clone, Copy, PartialEq)]
+enum Change {
+    None,
+    ThresholdZero,
+    ThresholdHuge,
+    Probe(u8, u8),
+}
+
 /// the rules of the resource under test: fresh objects (fresh ids) on every call
-fn flow_rules(kind: u8, two: bool, res: &str, threshold_override: Option<f64>) -> Vec<Arc<flow::Rule>> {
+fn flow_rules(case: &Case, res: &str, change: Change) -> Vec<Arc<flow::Rule>> {
+    let (kind, two) = (case.kind, case.two_rules);
     let base = flow::Rule { resource: res.into(), ..Default::default() };
     let mut v = match kind {
-        0 => vec![flow::Rule { threshold: 3.0, stat_interval_ms: 1000, ..base.clone() }],
-        1 => vec![flow::Rule { threshold: 3.0, stat_interval_ms: 700, ..base.clone() }],
-        2 => vec![flow::Rule { threshold: 5.0, control_strategy: flow::ControlStrategy::Throttling, max_queueing_time_ms: 500, stat_interval_ms: 1000, ..base.clone() }],
-        _ => vec![flow::Rule { threshold: 30.0, calculate_strategy: flow::CalculateStrategy::WarmUp, warm_up_period_sec: 2, warm_up_cold_factor: 3, ..base.clone() }],
+        0 => vec![flow::Rule { threshold: pm(case, 0, &[3.0, 1.0, 2.0, 5.0, 2.5]), stat_interval_ms: pm(case, 1, &[1000, 0, 2000, 500, 5000]), ..base.clone() }],
+        1 => vec![flow::Rule { threshold: pm(case, 0, &[3.0, 1.0, 2.0, 5.0]), stat_interval_ms: pm(case, 1, &[700, 250, 300, 1500, 3000]), ..base.clone() }],
+        2 => vec![flow::Rule {
+            threshold: pm(case, 0, &[5.0, 1.0, 2.0, 10.0]),
+            control_strategy: flow::ControlStrategy::Throttling,
+            max_queueing_time_ms: pm(case, 1, &[500, 0, 100, 2000]),
+            stat_interval_ms: pm(case, 2, &[1000, 100, 10000]),
+            ..base.clone()
+        }],
+        _ => vec![flow::Rule {
+            threshold: pm(case, 0, &[30.0, 60.0]),
+            calculate_strategy: flow::CalculateStrategy::WarmUp,
+            warm_up_period_sec: pm(case, 1, &[2, 1, 3]),
+            warm_up_cold_factor: pm(case, 2, &[3, 0, 5]),
+            ..base.clone()
+        }],
     };
     if two {
-        v.push(flow::Rule { threshold: 8.0, stat_interval_ms: 2000, ..base });
+        v.push(flow::Rule { threshold: 8.0, stat_interval_ms: 2000, ..base.clone() });
     }
-    if let Some(t) = threshold_override {
-        v[0].threshold = t;
+    match change {
+        Change::None => {}
+        Change::ThresholdZero => v[0].threshold = 0.0,
+        Change::ThresholdHuge => v[0].threshold = 1e9,
+        Change::Probe(1, k) => v[0] = flow::Rule { threshold: k as f64, stat_interval_ms: if kind == 1 { v[0].stat_interval_ms } else { 1000 }, ..base },
+        Change::Probe(2, _) => v[0] = flow::Rule { threshold: 1.0, control_strategy: flow::ControlStrategy::Throttling, max_queueing_time_ms: 0, stat_interval_ms: 1000, ..base },
+        Change::Probe(_, _) => v[0] = flow::Rule { threshold: 30.0, calculate_strategy: flow::CalculateStrategy::WarmUp, warm_up_period_sec: 10, warm_up_cold_factor: 3, ..base },
     }
     v.into_iter().map(Arc::new).collect()
 }
 
-fn hot_rules(kind: u8, two: bool, res: &str, threshold_override: Option<u64>) -> Vec<Arc<hotspot::Rule>> {
+fn hot_rules(case: &Case, res: &str, change: Change) -> Vec<Arc<hotspot::Rule>> {
+    let kind = case.kind;
     let base = hotspot::Rule { resource: res.into(), param_index: 0, duration_in_sec: 1, ..Default::default() };
-    let mut v = match kind {
-        4 => vec![hotspot::Rule { metric_type: hotspot::MetricType::QPS, control_strategy: hotspot::ControlStrategy::Reject, threshold: 2, burst_count: 1, ..base.clone() }],
-        5 => vec![hotspot::Rule { metric_type: hotspot::MetricType::QPS, control_strategy: hotspot::ControlStrategy::Throttling, threshold: 5, max_queueing_time_ms: 300, ..base.clone() }],
-        _ => vec![hotspot::Rule { metric_type: hotspot::MetricType::Concurrency, threshold: 2, ..base.clone() }],
-    };
-    if two {
-        v.push(hotspot::Rule { metric_type: hotspot::MetricType::QPS, control_strategy: hotspot::ControlStrategy::Reject, threshold: 6, duration_in_sec: 2, ..base });
+    let mut items = std::collections::HashMap::new();
+    match pm(case, 3, &[0u8, 1, 2]) {
+        1 => {
+            items.insert("q".to_string(), 1u64);
+        }
+        2 => {
+            items.insert("q".to_string(), 4u64);
+            items.insert("other".to_string(), 7u64);
+        }
+        _ => {}
     }
-    if let Some(t) = threshold_override {
-        v[0].threshold = t;
+    let mut v = match kind {
+        4 => vec![hotspot::Rule {
+            metric_type: hotspot::MetricType::QPS,
+            control_strategy: hotspot::ControlStrategy::Reject,
+            threshold: pm(case, 0, &[2, 1, 3]),
+            burst_count: pm(case, 1, &[1, 0, 2]),
+            duration_in_sec: pm(case, 2, &[1, 2]),
+            specific_items: items,
+            ..base.clone()
+        }],
+        5 => vec![hotspot::Rule {
+            metric_type: hotspot::MetricType::QPS,
+            control_strategy: hotspot::ControlStrategy::Throttling,
+            threshold: pm(case, 0, &[5, 2, 10]),
+            max_queueing_time_ms: pm(case, 1, &[300, 0, 100, 1000]),
+            duration_in_sec: pm(case, 2, &[1, 2]),
+            specific_items: items,
+            ..base.clone()
+        }],
+        _ => vec![hotspot::Rule { metric_type: hotspot::MetricType::Concurrency, threshold: pm(case, 0, &[2, 1, 3]), specific_items: items, ..base.clone() }],
+    };
+    match change {
+        Change::None | Change::ThresholdHuge => {}
+        Change::ThresholdZero => v[0].threshold = 0,
+        Change::Probe(1, k) => v[0] = hotspot::Rule { metric_type: hotspot::MetricType::QPS, control_strategy: hotspot::ControlStrategy::Reject, threshold: k as u64, burst_count: 0, ..base },
+        Change::Probe(2, k) => v[0] = hotspot::Rule { metric_type: hotspot::MetricType::Concurrency, threshold: k as u64, ..base },
+        Change::Probe(_, _) => {
+            let mut r = v[0].clone();
+            r.specific_items.insert("p".to_string(), 0);
+            v[0] = r;
+        }
     }
     v.into_iter().map(Arc::new).collect()
 }
 
-fn cb_rules(two: bool, res: &str, threshold_override: Option<f64>) -> Vec<Arc<cb::Rule>> {
-    let base = cb::Rule { resource: res.into(), retry_timeout_ms: 300, stat_interval_ms: 1000, min_request_amount: 1, ..Default::default() };
-    let mut v = vec![cb::Rule { strategy: cb::BreakerStrategy::ErrorCount, threshold: 2.0, ..base.clone() }];
-    if two {
-        v.push(cb::Rule { strategy: cb::BreakerStrategy::ErrorRatio, threshold: 0.75, stat_sliding_window_bucket_count: 2, ..base });
+fn cb_rules(case: &Case, res: &str, change: Change) -> Vec<Arc<cb::Rule>> {
+    let base = cb::Rule {
+        resource: res.into(),
+        retry_timeout_ms: pm(case, 1, &[300, 100, 1500]),
+        stat_interval_ms: 1000,
+        min_request_amount: pm(case, 2, &[1, 0, 2]),
+        stat_sliding_window_bucket_count: pm(case, 3, &[0, 2]),
+        ..Default::default()
+    };
+    let mut v = vec![match pm(case, 0, &[0u8, 1, 2, 3, 4]) {
+        0 => cb::Rule { strategy: cb::BreakerStrategy::ErrorCount, threshold: 2.0, ..base.clone() },
+        1 => cb::Rule { strategy: cb::BreakerStrategy::ErrorCount, threshold: 1.0, ..base.clone() },
+        2 => cb::Rule { strategy: cb::BreakerStrategy::ErrorRatio, threshold: 0.5, ..base.clone() },
+        3 => cb::Rule { strategy: cb::BreakerStrategy::SlowRequestRatio, threshold: 0.5, max_allowed_rt_ms: 100, ..base.clone() },
+        _ => cb::Rule { strategy: cb::BreakerStrategy::ErrorCount, threshold: 3.0, ..base.clone() },
+    }];
+    if case.two_rules {
+        v.push(cb::Rule { strategy: cb::BreakerStrategy::ErrorRatio, threshold: 0.75, stat_sliding_window_bucket_count: 2, ..base.clone() });
     }
-    if let Some(t) = threshold_override {
-        v[0].threshold = t;
+    match change {
+        Change::None | Change::ThresholdZero => {}
+        Change::ThresholdHuge => v[0].threshold = 1e9,
+        Change::Probe(_, k) => v[0] = cb::Rule { strategy: cb::BreakerStrategy::ErrorCount, threshold: k as f64, min_request_amount: 1, retry_timeout_ms: 5000, stat_interval_ms: 1000, resource: res.into(), ..Default::default() },
     }
     v.into_iter().map(Arc::new).collect()
 }
@@ -126,18 +216,13 @@ fn ptrs(kind: u8, res: &String) -> Vec<usize> {
     v
 }
 
-fn load(case: &Case, res: &String, other: &String, third: &String, reload: bool, change: u8) {
+fn load(case: &Case, res: &String, other: &String, third: &String, reload: bool, change: Change) {
     let kind = case.kind;
     // what the unrelated resource looks like in this call
     let others = if reload { case.others } else { 0 };
     match kind {
         0..=3 => {
-            let thr = match change {
-                1 => Some(0.0),
-                2 => Some(1e9),
-                _ => None,
-            };
-            let mut mine = flow_rules(kind, case.two_rules, res, thr);
+            let mut mine = flow_rules(case, res, change);
             if reload && case.shuffle {
                 mine.reverse();
             }
@@ -158,11 +243,7 @@ fn load(case: &Case, res: &String, other: &String, third: &String, reload: bool,
             flow::load_rules(all);
         }
         4..=6 => {
-            let thr = match change {
-                1 => Some(0u64),
-                _ => None,
-            };
-            let mut mine = hot_rules(kind, case.two_rules, res, thr);
+            let mut mine = hot_rules(case, res, change);
             if reload && case.shuffle {
                 mine.reverse();
             }
@@ -184,11 +265,7 @@ fn load(case: &Case, res: &String, other: &String, third: &String, reload: bool,
             hotspot::load_rules(all);
         }
         _ => {
-            let thr = match change {
-                2 => Some(1e9),
-                _ => None,
-            };
-            let mut mine = cb_rules(case.two_rules, res, thr);
+            let mut mine = cb_rules(case, res, change);
             if reload && case.shuffle {
                 mine.reverse();
             }
@@ -213,14 +290,14 @@ fn load(case: &Case, res: &String, other: &String, third: &String, reload: bool,
 }
 
 /// run the script; `reload` = perform the reload at `case.reload_at`; `change` as in Case
-fn run(case: &Case, reload: bool, change: u8) -> Run {
+fn run(case: &Case, reload: bool, change: Change) -> Run {
     util::reset_all();
-    let t0 = (clock::new_case_epoch() / 70_000 + 1) * 70_000;
+    let t0 = (clock::new_case_epoch() / 210_000 + 1) * 210_000;
     clock::set_ms(t0);
     let res = util::fresh_name("c11");
     let other = util::fresh_name("c11o");
     let third = util::fresh_name("c11t");
-    load(case, &res, &other, &third, false, 0);
+    load(case, &res, &other, &third, false, Change::None);
     let mut open = OpenEntries::new();
     let mut order: Vec<usize> = Vec::new();
     let mut obs = Vec::new();
@@ -273,7 +350,7 @@ fn run(case: &Case, reload: bool, change: u8) -> Run {
                         Err(m) => last_bt = block_type_of(&m),
                     }
                 }
-                if reload && change != 0 && i >= case.reload_at && next_after_change.is_none() {
+                if reload && change != Change::None && i >= case.reload_at && next_after_change.is_none() {
                     next_after_change = Some(adm > 0);
                 }
                 if i < case.reload_at {
@@ -293,22 +370,208 @@ fn run(case: &Case, reload: bool, change: u8) -> Run {
     Run { obs, ptr_kept, next_after_change, live_at_reload }
 }
 
+/// The first rule is replaced by a DIFFERENT rule at the reload; a probe burst right after it judges whether the new
+/// rule is the one in force ("takes effect on the very next entry"), with bounds that hold whether or not the
+/// implementation carries statistics over to the new rule.
+fn run_probe(case: &Case) -> Result<&'static str, (String, String)> {
+    util::reset_all();
+    let t0 = (clock::new_case_epoch() / 210_000 + 1) * 210_000;
+    clock::set_ms(t0);
+    let res = util::fresh_name("c11p");
+    let other = util::fresh_name("c11po");
+    let third = util::fresh_name("c11pt");
+    load(case, &res, &other, &third, false, Change::None);
+    let mut open = OpenEntries::new();
+    let mut order: Vec<usize> = Vec::new();
+    let mut admitted_log: Vec<(u64, u32)> = Vec::new(); // (ms, tokens)
+    for s in case.steps.iter().take(case.reload_at) {
+        clock::advance_ms(s.dt);
+        match s.op {
+            6 | 7 => {
+                if !order.is_empty() {
+                    let idx = order.remove(0);
+                    if s.op == 7 {
+                        if let Some(Some(e)) = open.0.get(idx) {
+                            e.set_err(sentinel_core::Error::msg("biz"));
+                        }
+                    }
+                    open.exit(idx);
+                }
+            }
+            _ => {
+                let n_req = if case.kind == 3 { 12 } else { 1 };
+                for _ in 0..n_req {
+                    let batch = if case.kind == 3 { 1 } else { s.batch };
+                    let mut req = Req::new(&res, batch);
+                    req.args = Some(vec![VALUES[s.value].to_string()]);
+                    if let Ok(e) = build(req) {
+                        admitted_log.push((clock::now_ms(), batch));
+                        let idx = open.push(e);
+                        if case.kind == 6 || case.kind == 7 {
+                            order.push(idx);
+                        } else {
+                            open.exit(idx);
+                        }
+                    }
+                }
+            }
+        }
+    }
+    // entries still open finish normally before the rules change (their completions belong to the old rules)
+    for idx in order.drain(..) {
+        open.exit(idx);
+    }
+    let k = case.probe_k as u32;
+    let change = Change::Probe(case.probe, case.probe_k);
+    // is the replacement really a different rule?
+    let differs = match case.kind {
+        0..=3 => flow_rules(case, &res, Change::None)[0] != flow_rules(case, &res, change)[0],
+        4..=6 => hot_rules(case, &res, Change::None)[0] != hot_rules(case, &res, change)[0],
+        _ => cb_rules(case, &res, Change::None)[0] != cb_rules(case, &res, change)[0],
+    };
+    if !differs {
+        return Ok("probe-rule-equal-to-old");
+    }
+    load(case, &res, &other, &third, true, change);
+    clock::advance_ms(case.steps.get(case.reload_at).map(|s| s.dt).unwrap_or(0));
+    let now = clock::now_ms();
+    let err = |what: String| Err(("changed-rule-not-applied".to_string(), what));
+    match (case.kind, case.probe) {
+        (0..=3, 1) => {
+            // -> Reject(k) on a 1 s (kind 1: the same private) window: of k + 2 single-token requests at one instant at
+            // most k pass, and at least k minus whatever the window may already hold
+            let interval = if case.kind == 1 { flow_rules(case, &res, Change::None)[0].stat_interval_ms as u64 } else { 1000 };
+            let carried: u32 = admitted_log.iter().filter(|(t, _)| *t + interval + 500 > now).map(|(_, n)| *n).sum();
+            let mut adm = 0u32;
+            for _ in 0..k + 2 {
+                if let Ok(e) = build(Req::new(&res, 1)) {
+                    adm += 1;
+                    e.exit();
+                }
+            }
+            if adm > k {
+                return err(format!("the reload replaced the first rule by Reject with threshold {}, yet {} of {} single-token requests at one instant right after it were admitted", k, adm, k + 2));
+            }
+            if !case.two_rules && adm + carried.min(k) < k {
+                return err(format!("the reload replaced the first rule by Reject with threshold {}; only {} requests were admitted although at most {} tokens can already be in its window", k, adm, carried));
+            }
+            Ok("probe-flow-to-reject")
+        }
+        (0..=3, 2) => {
+            // -> Throttling 1 per second without queueing: at most one of three requests at one instant
+            let recent = admitted_log.iter().any(|(t, _)| *t + 1000 >= now);
+            let mut adm = 0u32;
+            for _ in 0..3 {
+                if let Ok(e) = build(Req::new(&res, 1)) {
+                    adm += 1;
+                    e.exit();
+                }
+            }
+            if adm > 1 {
+                return err(format!("the reload replaced the first rule by Throttling (1 per second, no queueing), yet {} of 3 requests at one instant were admitted", adm));
+            }
+            if !case.two_rules && !recent && adm == 0 {
+                return err("the reload replaced the first rule by Throttling (1 per second, no queueing) and nothing was admitted for a second, yet the next request was rejected".into());
+            }
+            Ok("probe-flow-to-throttling")
+        }
+        (0..=3, _) => {
+            // -> WarmUp with threshold 30: never more than 30 per second
+            let mut adm = 0u32;
+            for _ in 0..40 {
+                if let Ok(e) = build(Req::new(&res, 1)) {
+                    adm += 1;
+                    e.exit();
+                }
+            }
+            if adm > 30 {
+                return err(format!("the reload replaced the first rule by WarmUp with threshold 30, yet {} of 40 requests at one instant were admitted", adm));
+            }
+            Ok("probe-flow-to-warmup")
+        }
+        (4..=6, 1) => {
+            let mut adm = 0u32;
+            for _ in 0..k + 2 {
+                let mut req = Req::new(&res, 1);
+                req.args = Some(vec!["z-fresh".to_string()]);
+                if let Ok(e) = build(req) {
+                    adm += 1;
+                    e.exit();
+                }
+            }
+            if adm != k {
+                return err(format!("the reload replaced the first rule by hotspot QPS Reject with threshold {} (no burst), yet {} of {} requests of a never-seen value at one instant were admitted", k, adm, k + 2));
+            }
+            Ok("probe-hotspot-to-qps-reject")
+        }
+        (4..=6, 2) => {
+            let mut adm = 0u32;
+            let mut held = OpenEntries::new();
+            for _ in 0..k + 2 {
+                let mut req = Req::new(&res, 1);
+                req.args = Some(vec!["z-fresh".to_string()]);
+                if let Ok(e) = build(req) {
+                    adm += 1;
+                    held.push(e);
+                }
+            }
+            drop(held);
+            if adm != k {
+                return err(format!("the reload replaced the first rule by hotspot Concurrency with threshold {}, yet {} of {} simultaneously open requests of a never-seen value were admitted", k, adm, k + 2));
+            }
+            Ok("probe-hotspot-to-concurrency")
+        }
+        (4..=5, _) => {
+            let mut req = Req::new(&res, 1);
+            req.args = Some(vec!["p".to_string()]);
+            if let Ok(e) = build(req) {
+                e.exit();
+                return err("the reload added the override 0 for value \"p\" to the hotspot QPS rule, yet the next request of that value was admitted".into());
+            }
+            Ok("probe-hotspot-override-zero")
+        }
+        (7, _) => {
+            // -> ErrorCount(k), min_request_amount 1, retry 5 s: after at most k failed requests the next one is rejected
+            let mut failed = 0u32;
+            let mut rejected = false;
+            for _ in 0..k + 1 {
+                match build(Req::new(&res, 1)) {
+                    Ok(e) => {
+                        e.set_err(sentinel_core::Error::msg("biz"));
+                        e.exit();
+                        failed += 1;
+                    }
+                    Err(_) => {
+                        rejected = true;
+                        break;
+                    }
+                }
+            }
+            if !rejected {
+                return err(format!("the reload replaced the breaker rule by ErrorCount with threshold {}, yet after {} failed requests the next one was still admitted", k, failed));
+            }
+            Ok("probe-breaker-to-error-count")
+        }
+        _ => Ok("probe-not-applicable"),
+    }
+}
+
 impl Property for C11 {
     fn id(&self) -> &'static str {
         "C11"
     }
     fn budget(&self, tier: Tier) -> Budget {
         match tier {
-            Tier::Quick => Budget { cases: 3000, shards: 16, min_len: 24, max_len: 160 },
-            Tier::Thorough => Budget { cases: 80_000, shards: 16, min_len: 24, max_len: 160 },
+            Tier::Quick => Budget { cases: 3000, shards: 16, min_len: 40, max_len: 220 },
+            Tier::Thorough => Budget { cases: 80_000, shards: 16, min_len: 40, max_len: 220 },
         }
     }
     fn rule(&self) -> String {
-        "bytes -> scenario (flow reject on the global window / on a private 700 ms window, flow throttling, flow warm-up, hotspot QPS reject, hotspot QPS throttling, hotspot concurrency, circuit breaker), optionally a second rule on the same resource, a script of 4-33 steps (clock advance from a menu; request with batch/value, exit oldest open entry ok / with error), a reload position, reload through load_rules (with the unrelated resource kept / removed / changed / another added in the same call) or load_rules_of_resource, rules re-created with fresh ids and optionally reversed order; differential oracle: the observation sequence (admitted, block type, time slept, breaker states) of the run with the reload equals that of the run without it at the same virtual instants on fresh resources, and the controllers / breakers are the same objects (Arc::ptr_eq) before and after; changed rule: threshold -> 0 => the next request is rejected, threshold -> 1e9 => admitted; non-trivial = the reload happens after at least one admission and the remainder of the run contains a rejection, a wait or a non-closed breaker state; distinct = distinct decoded cases".into()
+        "bytes -> scenario (flow reject on the global window / on a private 700 ms window, flow throttling, flow warm-up, hotspot QPS reject, hotspot QPS throttling, hotspot concurrency, circuit breaker), optionally a second rule on the same resource, a script of 4-33 steps (clock advance from a menu; request with batch/value, exit oldest open entry ok / with error), a reload position, reload through load_rules (with the unrelated resource kept / removed / changed / another added in the same call) or load_rules_of_resource, rules re-created with fresh ids and optionally reversed order; differential oracle: the observation sequence (admitted, block type, time slept, breaker states) of the run with the reload equals that of the run without it at the same virtual instants on fresh resources, and the controllers / breakers are the same objects (Arc::ptr_eq) before and after; changed rule: threshold -> 0 => the next request is rejected, threshold -> 1e9 => admitted; replaced rule (3 cases in 5): the first rule is replaced by a different one (flow -> Reject(k) / Throttling 1 per s / WarmUp 30, hotspot -> QPS Reject(k) / Concurrency(k) / override 0 for a value, breaker -> ErrorCount(k)) and a probe burst right after the reload must show the new rule in force, with bounds that hold whether or not statistics are carried over; rule parameters (thresholds, intervals, bursts, queueing times, override tables, breaker strategies) come from menus; non-trivial = the reload happens after at least one admission and the remainder of the run contains a rejection, a wait or a non-closed breaker state; distinct = distinct decoded cases".into()
     }
     fn assumptions(&self) -> Vec<String> {
         vec![
-            "virtual clock; both runs start on a multiple of 70 s so every bucket phase is identical".into(),
+            "virtual clock; both runs start on a multiple of 210 s (a common multiple of every generated bucket length) so every bucket phase is identical".into(),
             "the threshold -> 1e9 clause is only used where it does not depend on carried-over counts (flow reject, circuit breaker)".into(),
         ]
     }
@@ -319,8 +582,8 @@ impl Property for C11 {
         let fail = |clause: &str, detail: String| {
             Verdict::Fail(Failure { clause: clause.into(), key: format!("C11|{}|{}", fam, clause), detail, decoded: serde_json::to_value(&case).unwrap() })
         };
-        let a = run(&case, false, 0);
-        let b = run(&case, true, 0);
+        let a = run(&case, false, Change::None);
+        let b = run(&case, true, Change::None);
         if b.ptr_kept == Some(false) {
             return fail("controller-replaced", format!("reloading equal rules (fresh ids{}) replaced the {} of the resource", if case.shuffle { ", reversed order" } else { "" }, if case.kind == 7 { "breakers" } else { "controllers" }));
         }
@@ -335,20 +598,27 @@ impl Property for C11 {
                 // raising one rule's threshold admits the next request only if no other rule can reject it
                 (0, 2) | (1, 2) => !case.two_rules,
                 (2, 1) => true,
-                (4, 1) | (5, 1) => true,
+                // a per-value override replaces the threshold for that value: the clause applies to values without one
+                (4, 1) | (5, 1) => pm(&case, 3, &[0u8, 1, 2]) == 0 || case.steps.get(case.reload_at).map(|s| s.value == 0).unwrap_or(false),
                 (7, 2) => true,
                 _ => false,
             };
             // the step right after the reload must be a request for the clause to apply
             let next_is_req = case.steps.get(case.reload_at).map(|s| s.op < 6).unwrap_or(false);
             if applicable && next_is_req {
-                let c = run(&case, true, case.change);
+                let c = run(&case, true, if case.change == 1 { Change::ThresholdZero } else { Change::ThresholdHuge });
                 match (case.change, c.next_after_change) {
                     (1, Some(true)) => return fail("changed-rule-not-applied", "threshold changed to 0 by the reload, yet the very next request was admitted".into()),
                     (2, Some(false)) => return fail("changed-rule-not-applied", "threshold changed to 1e9 by the reload, yet the very next request was rejected".into()),
                     _ => {}
                 }
                 classes.push("changed-rule");
+            }
+        }
+        if case.probe != 0 {
+            match run_probe(&case) {
+                Ok(c) => classes.push(c),
+                Err((clause, detail)) => return fail(&clause, detail),
             }
         }
         classes.push(if case.via_resource_api { "reload-via-load_rules_of_resource" } else { "reload-via-load_rules" });
